@@ -387,7 +387,12 @@ fn append_assign(core: &Core, assign_to: &Core, name: &Option<Name>, imp: &mut I
         expr if skip_assign(expr) => core.clone(),
         _ => Core::VarDef {
             var: Box::from(assign_to.clone()),
-            ty: name.clone().map(|name| Box::from(name.to_py(imp))),
+            // Python annotates single targets only
+            ty: if matches!(assign_to, Core::Tuple { .. } | Core::TupleLiteral { .. }) {
+                None
+            } else {
+                name.clone().map(|name| Box::from(name.to_py(imp)))
+            },
             expr: Option::from(Box::from(core.clone())),
         },
     }
